@@ -249,7 +249,7 @@ pub fn replay(scenarios: Vec<Scenario>, v: &Value) -> bool {
     println!("choice points: {}", o1.trace.iter().map(|c| format!("{}{}:{}", c.kind as char, c.n, c.chosen)).collect::<Vec<_>>().join(" "));
     for (t, d) in &o1.delivered {
         let m = crate::wire::parse(&d.bytes);
-        if m.has_user_traffic() {
+        if m.has_user_traffic() || std::env::var("SIM_TRACE_META").is_ok() {
             println!("  t={:>6}ms {}->{} {}", (t - crate::sim::T0_SEC * crate::sim::SEC) / crate::sim::MS, d.src, d.dst, m.kinds());
         }
     }
